@@ -81,7 +81,7 @@ Variable lower : str -> str.
 Notation pserve := (P.serve re_match re_replace lower).
 
 (* a successful login callback: the authenticator answered the redeem with 200 and a document, the code
-   was not empty, the routed upstream's login gate admitted the e-mail *)
+   was not empty, the routed upstream's login gate let the e-mail pass *)
 Lemma callback_ok_facts r s loc :
   Callback.oauth_callback true true 1 r = Callback.CbOk s loc ->
   Callback.cb_valid r = true /\ Callback.cb_code r <> [] /\
@@ -405,7 +405,7 @@ Notation step := (SystemAll.step re_match re_replace lower sd).
 Notation run := (SystemAll.run re_match re_replace lower sd).
 
 (* the IdP vouched: a code exchange answered 200 with tokens, and the verified e-mail of the id_token
-   payload (Google) / of the userinfo answer (Okta) is the recorded one; the authenticator's rule admits it *)
+   payload (Google) / of the userinfo answer (Okta) is the recorded one; the authenticator's rule lets it pass *)
 Definition vouch_ok (v : vrec) : Prop :=
   (exists ts, AP.idp_vouched (vr_kind v) (vr_an v) (vr_idp_code v) ts /\ T.s_email ts = vr_email v) /\
   F.rule_passes lower (A.fcfg da) (vr_email v) = true /\ vr_email v <> [].
@@ -1829,3 +1829,172 @@ End NamesStep.
 (* an issued code is found under its own name *)
 Lemma find_c_named st c : Names st -> In c (st_c st) -> find_c st (cr_val c) = Some c.
 Proof. intros (_ & _ & Hc & _) Hin. unfold find_c. apply (find_named tag_c cr_val); assumption. Qed.
+
+(* ================================================================================================ *)
+(* Part 12 — the back-channel adapter is faithful on byte strings: what the authenticator's ParseForm reads off
+   the request the proxy model builds (url.Values.Encode) is what the proxy put in *)
+
+Local Open Scope N_scope.
+
+Definition bytes (s : str) : Prop := Forall (fun c => c < 256) s.
+
+Lemma hexd_ok n : n < 16 -> B.ishex (hexd n) = true /\ B.unhex (hexd n) = n.
+Proof.
+  intros H. unfold hexd, B.ishex, B.unhex. destruct (n <? 10) eqn:E.
+  - assert (n < 10) by lia. split; [lia|].
+    replace ((48 <=? 48 + n) && (48 + n <=? 57)) with true by lia. lia.
+  - assert (10 <= n) by lia. split; [lia|].
+    replace ((48 <=? 55 + n) && (55 + n <=? 57)) with false by lia.
+    replace ((97 <=? 55 + n) && (55 + n <=? 102)) with false by lia.
+    replace ((65 <=? 55 + n) && (55 + n <=? 70)) with true by lia. lia.
+Qed.
+
+Lemma unreserved_plain c : unreserved c = true -> c <> 37 /\ c <> 43 /\ c <> 38 /\ c <> 59 /\ c <> 61.
+Proof. unfold unreserved. intros H. lia. Qed.
+
+Lemma unescape_qesc s : bytes s -> B.unescape_q (qesc s) = Some s.
+Proof.
+  induction 1 as [|c s Hc Hs IH]; [reflexivity|]. cbn [qesc].
+  destruct (unreserved c) eqn:Eu.
+  - apply unreserved_plain in Eu as (H37 & H43 & _). cbn [B.unescape_q].
+    replace (c =? 37) with false by lia. replace (c =? 43) with false by lia. rewrite IH. reflexivity.
+  - destruct (c =? 32) eqn:E32.
+    + assert (c = 32) by lia. subst c. cbn [B.unescape_q]. cbn. rewrite IH. reflexivity.
+    + cbn [B.unescape_q]. cbn [N.eqb Pos.eqb].
+      destruct (hexd_ok (c / 16)) as [H1 H2]. { apply N.div_lt_upper_bound; lia. }
+      destruct (hexd_ok (c mod 16)) as [H3 H4]. { apply N.mod_lt. lia. }
+      rewrite H1, H3. cbn [andb]. rewrite IH, H2, H4. cbn [option_map]. f_equal. f_equal.
+      pose proof (N.div_mod c 16 ltac:(lia)). lia.
+Qed.
+
+Definition sep_free (s : str) : Prop := Forall (fun c => c <> 38 /\ c <> 59 /\ c <> 61) s.
+
+Lemma hexd_plain n : n < 16 -> hexd n <> 38 /\ hexd n <> 59 /\ hexd n <> 61.
+Proof. intros H. unfold hexd. destruct (n <? 10) eqn:E; lia. Qed.
+
+Lemma qesc_sep_free s : bytes s -> sep_free (qesc s).
+Proof.
+  induction 1 as [|c s Hc Hs IH]; [constructor|]. cbn [qesc].
+  destruct (unreserved c) eqn:Eu.
+  - constructor; [|exact IH]. apply unreserved_plain in Eu. tauto.
+  - destruct (c =? 32); [constructor; [lia | exact IH]|].
+    constructor; [lia|]. constructor; [apply hexd_plain; apply N.div_lt_upper_bound; lia|].
+    constructor; [apply hexd_plain; apply N.mod_lt; lia | exact IH].
+Qed.
+
+Lemma cut_on_app a b : Forall (fun c => c <> 61) a -> B.cut_on 61 (a ++ 61 :: b) = (a, b).
+Proof.
+  induction 1 as [|c a Hc Ha IH]; cbn [app B.cut_on]; [reflexivity|].
+  replace (c =? 61) with false by lia. rewrite IH. reflexivity.
+Qed.
+
+Lemma split_on_no_sep s : Forall (fun c => c <> 38) s -> split_on 38 s = [s].
+Proof.
+  induction 1 as [|c s Hc Hs IH]; [reflexivity|]. cbn [split_on]. replace (c =? 38) with false by lia. rewrite IH. reflexivity.
+Qed.
+
+Lemma split_on_app a b : Forall (fun c => c <> 38) a -> split_on 38 (a ++ 38 :: b) = a :: split_on 38 b.
+Proof.
+  induction 1 as [|c a Hc Ha IH]; cbn [app split_on]; [reflexivity|].
+  replace (c =? 38) with false by lia. rewrite IH. reflexivity.
+Qed.
+
+Definition pair_text (p : str * str) : str := qesc (fst p) ++ 61 :: qesc (snd p).
+
+Lemma sep_free_weaken s : sep_free s -> Forall (fun c => c <> 38) s /\ Forall (fun c => c <> 61) s /\ Forall (fun c => c <> 59) s.
+Proof. intros H. repeat split; eapply Forall_impl; try exact H; cbn; intros; tauto. Qed.
+
+Lemma pair_text_no_amp p : bytes (fst p) -> bytes (snd p) -> Forall (fun c => c <> 38) (pair_text p).
+Proof.
+  intros Hk Hv. unfold pair_text. apply Forall_app. split; [apply sep_free_weaken, qesc_sep_free, Hk|].
+  constructor; [lia|]. apply sep_free_weaken, qesc_sep_free, Hv.
+Qed.
+
+Lemma parse_segment_pair p : bytes (fst p) -> bytes (snd p) -> B.parse_segment (pair_text p) = B.SegPair (fst p) (snd p).
+Proof.
+  intros Hk Hv. unfold B.parse_segment, pair_text.
+  assert (Hsemi : existsb (N.eqb 59) (qesc (fst p) ++ 61 :: qesc (snd p)) = false).
+  { apply not_true_is_false. intros E. apply existsb_exists in E as [c [Hin Hc]]. assert (c = 59) by lia. subst c.
+    apply in_app_or in Hin as [Hin|[Hin|Hin]]; [|discriminate|].
+    - pose proof (proj2 (proj2 (sep_free_weaken _ (qesc_sep_free _ Hk)))) as F. rewrite Forall_forall in F. exact (F _ Hin eq_refl).
+    - pose proof (proj2 (proj2 (sep_free_weaken _ (qesc_sep_free _ Hv)))) as F. rewrite Forall_forall in F. exact (F _ Hin eq_refl). }
+  rewrite Hsemi.
+  assert (Hnil : B.is_nil (qesc (fst p) ++ 61 :: qesc (snd p)) = false) by (destruct (qesc (fst p)); reflexivity).
+  rewrite Hnil. rewrite cut_on_app by (apply sep_free_weaken, qesc_sep_free, Hk).
+  rewrite (unescape_qesc _ Hk), (unescape_qesc _ Hv). reflexivity.
+Qed.
+
+Definition bytes_pairs (ps : list (str * str)) : Prop := Forall (fun p => bytes (fst p) /\ bytes (snd p)) ps.
+
+Lemma encode_cons k v p2 ps : encode_pairs ((k, v) :: p2 :: ps) = pair_text (k, v) ++ 38 :: encode_pairs (p2 :: ps).
+Proof. destruct p2 as [k2 v2]. unfold pair_text. cbn [fst snd]. cbn [encode_pairs]. rewrite <- app_assoc. reflexivity. Qed.
+
+Lemma split_encode ps : bytes_pairs ps -> ps <> [] -> split_on 38 (encode_pairs ps) = map pair_text ps.
+Proof.
+  induction 1 as [|p ps [Hk Hv] Hps IH]; [contradiction|]. intros _.
+  destruct ps as [|p2 ps].
+  - destruct p as [k v]. cbn [encode_pairs map]. apply (split_on_no_sep (pair_text (k, v))). apply pair_text_no_amp; assumption.
+  - destruct p as [k v]. rewrite encode_cons.
+    rewrite split_on_app by (apply (pair_text_no_amp (k, v)); assumption).
+    rewrite IH by discriminate. reflexivity.
+Qed.
+
+Lemma parse_segments_pairs ps : bytes_pairs ps -> B.parse_segments (map pair_text ps) = (ps, false).
+Proof.
+  induction 1 as [|p ps [Hk Hv] Hps IH]; [reflexivity|]. cbn [map B.parse_segments]. rewrite IH.
+  rewrite (parse_segment_pair p Hk Hv). destruct p; reflexivity.
+Qed.
+
+Lemma parse_query_encode ps : bytes_pairs ps -> ps <> [] -> B.parse_query (encode_pairs ps) = (ps, false).
+Proof. intros Hb Hne. unfold B.parse_query. rewrite (split_encode ps Hb Hne). apply parse_segments_pairs, Hb. Qed.
+
+Lemma bytes_bs_literals :
+  bytes B.k_client_id /\ bytes B.k_client_secret /\ bytes B.k_code /\ bytes k_grant_type /\ bytes v_auth_code /\
+  bytes A.k_redirect_uri /\ bytes B.k_refresh_token /\ bytes P.p_callback.
+Proof. repeat split; unfold bytes; repeat constructor. Qed.
+
+(* SYS_adapter_redeem: for byte strings, the authenticator reads off the proxy model's redeem request exactly the
+   client id, the client secret and the code the proxy put in *)
+Theorem redeem_request_faithful sd slug host code :
+  bytes (sd_pid sd) -> bytes (sd_psecret sd) -> bytes code -> bytes (callback_uri sd host) ->
+  let r := A.inner (rq_redeem sd slug host code) B.p_redeem in
+  B.presented_id r = (if B.is_nil (sd_pid sd) then [] else sd_pid sd) /\
+  B.presented_secret r = (if B.is_nil (sd_psecret sd) then [] else sd_psecret sd) /\
+  B.presented_code r = code /\ snd (B.compute_form r) = false.
+Proof.
+  intros Hi Hs Hc Hu. cbv zeta.
+  destruct bytes_bs_literals as (L1 & L2 & L3 & L4 & L5 & L6 & _).
+  set (ps := [(B.k_client_id, sd_pid sd); (B.k_client_secret, sd_psecret sd); (B.k_code, code);
+              (k_grant_type, v_auth_code); (A.k_redirect_uri, callback_uri sd host)]).
+  assert (Hb : bytes_pairs ps) by (unfold ps; repeat constructor; assumption).
+  assert (Hq : B.parse_query (encode_pairs ps) = (ps, false)) by (apply parse_query_encode; [exact Hb | discriminate]).
+  assert (Hf : B.compute_form (A.inner (rq_redeem sd slug host code) B.p_redeem) = (ps, false)).
+  { unfold B.compute_form, A.inner, rq_redeem, bc_request. cbn [B.rq_method A.q_method B.rq_ctype A.q_ctype B.rq_body A.q_body B.rq_query A.q_query].
+    replace (B.reads_body B.m_post) with true by reflexivity. cbn [urlenc B.ct_urlenc B.ct_err].
+    fold ps. rewrite Hq. cbn [orb]. replace (B.parse_query []) with (@nil (str * str), false) by reflexivity.
+    rewrite app_nil_r. reflexivity. }
+  unfold B.presented_id, B.presented_secret, B.presented_code. rewrite Hf. cbn [fst snd].
+  unfold ps. split; [|split; [|split]].
+  - cbn [B.form_get]. replace (str_eqb B.k_client_id B.k_client_id) with true by reflexivity.
+    destruct (B.is_nil (sd_pid sd)) eqn:E; [|reflexivity].
+    unfold B.url_query, A.inner, rq_redeem, bc_request. cbn. reflexivity.
+  - cbn [B.form_get]. replace (str_eqb B.k_client_secret B.k_client_id) with false by reflexivity.
+    replace (str_eqb B.k_client_secret B.k_client_secret) with true by reflexivity.
+    destruct (B.is_nil (sd_psecret sd)) eqn:E; [|reflexivity].
+    unfold A.inner, rq_redeem, bc_request. cbn. reflexivity.
+  - cbn [B.form_get]. replace (str_eqb B.k_code B.k_client_id) with false by reflexivity.
+    replace (str_eqb B.k_code B.k_client_secret) with false by reflexivity.
+    replace (str_eqb B.k_code B.k_code) with true by reflexivity. reflexivity.
+  - reflexivity.
+Qed.
+
+Local Open Scope Z_scope.
+
+Corollary creds_presented_bytes sd slug host code :
+  bytes (sd_pid sd) -> bytes (sd_psecret sd) -> bytes code -> bytes (callback_uri sd host) ->
+  creds_presented sd slug host code -> sd_pid sd = A.d_client_id (sd_a sd) /\ sd_psecret sd = A.d_client_secret (sd_a sd).
+Proof.
+  intros Hi Hs Hc Hu [H1 H2]. destruct (redeem_request_faithful sd slug host code Hi Hs Hc Hu) as (F1 & F2 & _).
+  rewrite F1 in H1. rewrite F2 in H2.
+  split; [destruct (sd_pid sd); exact H1 | destruct (sd_psecret sd); exact H2].
+Qed.
